@@ -49,9 +49,11 @@ TimingSeq ==
        <<TL(2000, TRUE, 800, 1, 100, 0), TL(2410, FALSE, -200, 3, 50, 0), TL(2010, FALSE, -200, 2, 70, 0)>>,
        <<TL(0, TRUE, 200, 3, 40, 5), TL(2010, TRUE, 400, 1, 80, 0), TL(4010, FALSE, -100, 2, 0, 0)>>,
        <<>>,
-       <<TL(0, TRUE, 400, 1, 100, 1), TL(2000, FALSE, -400, 2, 45, 2), TL(2410, FALSE, -25, 3, 5, 1), TL(3200, FALSE, -100, 1, 100, 7)>> >>
+       <<TL(0, TRUE, 400, 1, 100, 1), TL(2000, FALSE, -400, 2, 45, 2), TL(2410, FALSE, -25, 3, 5, 1), TL(3200, FALSE, -100, 1, 100, 7)>>,
+       \* velocity multipliers beyond their clamp [0.1, 10]: -2000 asks for 0.05, -5 for 20
+       <<TL(0, TRUE, 400, 1, 100, 0), TL(2000, FALSE, -2000, 2, 60, 0), TL(2010, FALSE, -5, 3, 50, 0)>> >>
 \* (TimesSet = "tiny" is the every-change budget of the wide profile: fewer sections, breaks, modes and shapes)
-TimingChoices == IF TimesSet = "tiny" THEN {2, 4, 6} ELSE 1..Len(TimingSeq)
+TimingChoices == IF TimesSet = "tiny" THEN {2, 4, 6, 7} ELSE 1..Len(TimingSeq)
 
 Obj(id, k, t, nc, len, spans, dur, s) ==
     [id |-> id, k |-> k, t |-> t, nc |-> nc, len |-> len, spans |-> spans, dur |-> dur,
